@@ -1,6 +1,6 @@
 """Shared machinery of every check: builds (lib objects from /repo, harness, Lean), audit of the
 proof side, correspondence runner, evidence and verdict handling.  See DESIGN.md §3."""
-import os, sys, re, json, time, glob, hashlib, subprocess, fcntl, random, shutil, signal
+import time, os, sys, re, json, time, glob, hashlib, subprocess, fcntl, random, shutil, signal
 from concurrent.futures import ThreadPoolExecutor
 
 HERE = os.path.dirname(os.path.abspath(__file__))
@@ -95,7 +95,11 @@ def build_lib(variant):
             return d
         # drop stale caches of this variant
         for old in glob.glob(os.path.join(BUILD, "lib-%s-*" % variant)):
-            shutil.rmtree(old, ignore_errors=True)
+            try:
+                if time.time() - os.path.getmtime(old) > 3600:   # another tree may be under check right now
+                    shutil.rmtree(old, ignore_errors=True)
+            except OSError:
+                pass
         os.makedirs(d, exist_ok=True)
 
         def cc(name):
@@ -130,7 +134,8 @@ def build_harness(variant="san"):
             return exe
         for old in glob.glob(os.path.join(BUILD, "vharn-%s-*" % variant)):
             try:
-                os.remove(old)
+                if time.time() - os.path.getmtime(old) > 3600:   # another tree may be under check right now
+                    os.remove(old)
             except OSError:
                 pass
         # vorbisenc.c is compiled inside the harness (harness/enc_unit.c includes it) with the library flags
